@@ -63,6 +63,8 @@ class LeaderClient(object):
         self.syncs = []  # (generation, [(member id, bytes)]) per SyncGroup request received
         self.leader_metadata = None
         self.omit = ()  # topics a (non-conforming) loader answer leaves out in the current generation
+        self.load_delay = {}  # topic -> seconds until the client has usable metadata for it (current generation)
+        self.topic_partitions = {}  # the client's metadata cache: topics it has usable metadata for right now
 
     def _get_coordinator_for_group(self, group):
         from twisted.internet import defer
@@ -81,8 +83,26 @@ class LeaderClient(object):
         from twisted.internet import defer
 
         self.loads.append(sorted(topics))
-        # the real client's contract: an entry for each requested topic (and only those)
-        return defer.succeed({t: list(self.cluster[t]) for t in topics if t not in self.omit})
+        # the real client's contract: an entry for each requested topic (and only those), once every one of
+        # them has usable metadata - which may take a while (the client keeps asking meanwhile)
+        delay = max([self.load_delay.get(t, 0) for t in topics] or [0])
+
+        def snapshot():
+            for t in topics:
+                self.topic_partitions[t] = list(self.cluster[t])
+            return {t: list(self.cluster[t]) for t in topics if t not in self.omit}
+
+        if not delay:
+            return defer.succeed(snapshot())
+        # meanwhile the cache holds the topics that are NOT slow
+        for t in topics:
+            if not self.load_delay.get(t, 0):
+                self.topic_partitions[t] = list(self.cluster[t])
+            else:
+                self.topic_partitions.pop(t, None)
+        d = defer.Deferred(lambda _d: dc.active() and dc.cancel())
+        dc = self.reactor.callLater(delay, lambda: d.callback(snapshot()))
+        return d
 
     def _send_request_to_coordinator(self, group, payload, encoder_fn, decode_fn, **kwargs):
         from twisted.internet import defer
@@ -125,6 +145,8 @@ class LeaderClient(object):
 
 def run_history(leader_id, leader_topics, gens):
     """gens: [{"members": [[id, [topic, ...]], ...] (listing order, contains leader_id), "cluster": [[topic, [p, ...]], ...]}].
+    A generation may carry "load_delay": {topic: seconds}: the client has no usable metadata for these topics until then,
+    `_load_topic_partitions` fires only when every asked topic is ready (the metadata cache holds the others meanwhile).
     A generation may carry "loader_omits": [topic, ...]: the loader's answer leaves these topics out (a loader that
     breaks its contract; the real client cannot since repo commit 9b87dea).
     -> list, one per generation: {"encs": [(id, bytes)] | None, "wire": [(id, metadata bytes)], "loads": [...],
@@ -157,17 +179,29 @@ def run_history(leader_id, leader_topics, gens):
                 n_esc = len(esc.failures)
                 client.omit = tuple(gen.get("loader_omits", ()))
                 client.cluster = dict((t, list(ps)) for t, ps in gen["cluster"])
+                client.load_delay = dict(gen.get("load_delay") or {})
+                wait = max(list(client.load_delay.values()) + [0])
                 client.listed = [(i, None if i == leader_id else bytes(proto.join_group_protocols(list(s))[0].protocol_metadata)) for i, s in gen["members"]]
                 n_loads, n_syncs = len(client.loads), len(client.syncs)
                 if g == 1:
                     d = coord.start()
                     d.addErrback(lambda f: errors.append(f.getErrorMessage()))
+                    if wait:
+                        for _ in range(int(2 * wait) + 100):  # the partition load completes (or the leader stops waiting)
+                            if len(client.syncs) > n_syncs:
+                                break
+                            clock.advance(0.5)
                 else:
                     client.rebalancing = True
                     for _ in range(400):  # heartbeat notices the rebalance, the rejoin timer fires
                         if len(client.syncs) > n_syncs or coord._start_d is None:
                             break
                         clock.advance(0.1)
+                    if wait:
+                        for _ in range(int(2 * wait) + 100):  # the partition load completes (or the leader stops waiting)
+                            if len(client.syncs) > n_syncs or coord._start_d is None:
+                                break
+                            clock.advance(0.5)
                 rec["loads"] = client.loads[n_loads:]
                 rec["wire"] = [(i, client.leader_metadata if md is None else md) for i, md in client.listed]
                 new = client.syncs[n_syncs:]
